@@ -50,6 +50,9 @@ type Run struct {
 	onlyOracles map[string]bool
 	otherFailed bool
 	held        []heldOutput
+	// serDst is the destination the read-back round trips of this run deserialize into when they reuse one
+	// ("pj2, err = s.Deserialize(output, pj2)", the idiom of the package's own tests)
+	serDst *simdjson.ParsedJson
 }
 
 // heldOutput is a byte slice an API returned earlier, with a private copy taken at that moment.
@@ -191,6 +194,7 @@ func (t *Token) String() string { return fmt.Sprintf("%s.%s(%d)", t.Owner, t.Nam
 type Sched struct {
 	mu       sync.Mutex
 	parked   []*Token
+	free     atomic.Bool // nothing parks any more: every hook and seam call returns at once (see -sim.freeafter)
 	classify func(ev simdjson.SimEvent, h simdjson.SimHandle, arg int) (park bool, owner string)
 }
 
@@ -220,6 +224,9 @@ func hookDispatch(ev simdjson.SimEvent, h simdjson.SimHandle, arg int) {
 
 // Park registers tok and blocks the calling goroutine until the scheduler releases it.
 func (s *Sched) Park(tok *Token) {
+	if s.free.Load() {
+		return
+	}
 	tok.resume = make(chan struct{})
 	s.mu.Lock()
 	s.parked = append(s.parked, tok)
